@@ -143,20 +143,24 @@ func (e *episode) exec(line string) {
 			}
 		}
 		e.emit(line, runLength(addrs), true)
-	case "rtable":
+	case "rslots":
 		if !e.vc.HasRSlots() {
 			e.emit(line, "nil", true)
 			break
 		}
-		keys := make([]string, 16384)
-		for i := range keys {
+		var out []string
+		for _, sw := range w[1:] {
+			slot, _ := strconv.Atoi(sw)
 			var hs []string
-			for _, a := range e.vc.RSlots(i) {
+			for _, a := range e.vc.RSlots(slot) {
 				hs = append(hs, hx(a))
 			}
-			keys[i] = strings.Join(hs, ",")
+			if len(hs) == 0 {
+				hs = []string{"-"}
+			}
+			out = append(out, strings.Join(hs, ","))
 		}
-		e.emit(line, runLength(keys), true)
+		e.emit(line, strings.Join(out, " "), true)
 	case "conns":
 		addrs, _, hidden := e.vc.Conns()
 		var out []string
@@ -528,7 +532,11 @@ func genEpisode(c *Ctx, idx int) []string {
 		"new", "table", "conns",
 	}
 	if mode != "plain" {
-		lines = append(lines, "rtable")
+		rs := []string{"0", "1", "2", "3", "4", "5", "16383"}
+		for i := 0; i < 12; i++ {
+			rs = append(rs, strconv.Itoa(t.interestingSlot(c)))
+		}
+		lines = append(lines, "rslots "+strings.Join(rs, " "))
 	}
 	flagsOf := func() string {
 		switch c.Rng.IntN(4) {
@@ -678,6 +686,9 @@ func genEpisode(c *Ctx, idx int) []string {
 		default:
 			lines = append(lines, "table")
 		}
+	}
+	for i := range lines {
+		lines[i] = strings.TrimSpace(lines[i])
 	}
 	return lines
 }
